@@ -8,6 +8,11 @@ export GOFLAGS=-mod=mod GOPROXY=off
 WT=/tmp/w/seedall-repo; OUT=/tmp/w/seedall-out
 git -C /repo worktree remove --force $WT 2>/dev/null; rm -rf $WT $OUT; mkdir -p $OUT /tmp/w
 git -C /repo worktree add -q --detach $WT HEAD || exit 2
+# frozen copies of the verifier, the ledgers and the other inputs of a check, so that
+# work going on in /verif does not disturb the run
+SNAP=/tmp/w/seedall-verif; rm -rf $SNAP; mkdir -p $SNAP/bin
+(cd /verif/engine && go build -o $SNAP/bin/gocv ./cmd/gocv) || exit 2
+cp -r /verif/baseline /verif/props /verif/speclib /verif/witness /verif/known_findings.json $SNAP/
 ids="$*"; [ -z "$ids" ] && ids=$(ls /verif/seeded)
 for id in $ids; do
   d=/verif/seeded/$id; prop=${id%%-*}
@@ -16,7 +21,8 @@ for id in $ids; do
   if ! git -C $WT apply $d/patch.diff 2>/dev/null; then echo "$id APPLY-FAILED"; continue; fi
   viol=""; und=""
   for p in $props; do
-    out=$(cd /verif && GOCV_REPO=$WT GOCV_OUT=$OUT ./check $p quick 2>&1)
+    out=$(cd $SNAP && GOCV_OUT=$OUT $SNAP/bin/gocv check -verif $SNAP -repo $WT $p quick 2>&1)
+    echo "$out" | grep -q "^property=$p " || { echo "$id CHECK-DID-NOT-RUN ($p)"; continue 2; }
     viol="$viol$(echo "$out" | grep '^VIOLATION' | sed 's/.*obligation=\([^ ]*\).*/\1/' | sed "s/^/$p:/" | tr '\n' ' ')"
     und="$und$(echo "$out" | grep '^UNDECIDED.*outside the verified subset' | sed 's/.*function=\([^ ]*\).*/\1/' | sed "s/^/$p:/" | tr '\n' ' ')"
   done
@@ -28,4 +34,4 @@ json.dump(r,open(d+"/result.json","w"),indent=1)
 print(d.split('/')[-1], "DETECTED" if r["detected"] else "missed", " ".join(r["violations"][:3]), ("outside-subset: "+" ".join(r["outside_subset"])) if r["outside_subset"] else "")
 PY
 done
-git -C /repo worktree remove --force $WT; rm -rf $OUT
+git -C /repo worktree remove --force $WT; rm -rf $OUT $SNAP
